@@ -1,8 +1,112 @@
 //! Implementation side of driver op `sort` (see /verif/CONTRIBUTING.md).
+//!
+//! Every sub-command builds Jsonnet source and evaluates it through the real
+//! `Program` (`ops_eval::eval_source`).  Array elements are pairs `[key, tag]`
+//! and the key function is `function(x) x[0]`, so which element was chosen /
+//! where it ended up is observable through the tag.  Answers:
+//!   sort sort <thr> <keys>          -> tags in output order ("-" = empty); <thr> is for the model only
+//!   sort uniq <keys>                -> tags
+//!   sort set <thr> <keys>           -> tags
+//!   sort union|inter|diff <ka> <kb> -> tokens a<i> / b<j>
+//!   sort member <x> <keys>          -> true | false
+//!   sort min|max <keys>             -> tag | empty
+//! Evaluation errors are passed through as the `err ...` line of `eval`.
 #![allow(unused_imports, dead_code)]
+use crate::ops_eval::{eval_source, EvalOpts};
 use crate::util::*;
 
-/// `sort <args...>`: one canonical answer line, or `None` for a malformed request.
-pub fn handle(_args: &[&str]) -> Option<String> {
-    None
+fn parse_keys(s: &str) -> Option<Vec<i64>> {
+    if s == "-" {
+        return Some(Vec::new());
+    }
+    s.split(',').map(|x| x.parse::<i64>().ok()).collect()
+}
+
+/// `[[k0, "<p>0"], [k1, "<p>1"], ...]`
+fn arr_src(keys: &[i64], prefix: &str) -> String {
+    let items: Vec<String> = keys
+        .iter()
+        .enumerate()
+        .map(|(i, k)| format!("[{}, \"{}{}\"]", k, prefix, i))
+        .collect();
+    format!("[{}]", items.join(", "))
+}
+
+const KEYF: &str = "function(x) x[0]";
+
+fn run(src: &str) -> String {
+    let o = EvalOpts::parse(&["mode=str"]).unwrap();
+    let out = eval_source(src.as_bytes(), &o);
+    match out.strip_prefix("ok ") {
+        Some(h) => match hex_dec(h).and_then(|b| String::from_utf8(b).ok()) {
+            Some(s) if s.is_empty() => "-".into(),
+            Some(s) => s,
+            None => out,
+        },
+        None => out,
+    }
+}
+
+/// Evaluate an expression yielding an array of `[key, tag]` pairs; answer the tags.
+fn run_tags(expr: &str) -> String {
+    run(&format!(
+        "local r = {};\nstd.join(\",\", [x[1] for x in r])",
+        expr
+    ))
+}
+
+pub fn handle(args: &[&str]) -> Option<String> {
+    match args {
+        ["sort", thr, ks] => {
+            let _: usize = thr.parse().ok()?;
+            let ks = parse_keys(ks)?;
+            Some(run_tags(&format!("std.sort({}, {})", arr_src(&ks, ""), KEYF)))
+        }
+        ["uniq", ks] => {
+            let ks = parse_keys(ks)?;
+            Some(run_tags(&format!("std.uniq({}, {})", arr_src(&ks, ""), KEYF)))
+        }
+        ["set", thr, ks] => {
+            let _: usize = thr.parse().ok()?;
+            let ks = parse_keys(ks)?;
+            Some(run_tags(&format!("std.set({}, {})", arr_src(&ks, ""), KEYF)))
+        }
+        [op @ ("union" | "inter" | "diff"), ka, kb] => {
+            let ka = parse_keys(ka)?;
+            let kb = parse_keys(kb)?;
+            let f = match *op {
+                "union" => "setUnion",
+                "inter" => "setInter",
+                _ => "setDiff",
+            };
+            Some(run_tags(&format!(
+                "std.{}({}, {}, {})",
+                f,
+                arr_src(&ka, "a"),
+                arr_src(&kb, "b"),
+                KEYF
+            )))
+        }
+        ["member", x, ks] => {
+            let x: i64 = x.parse().ok()?;
+            let ks = parse_keys(ks)?;
+            Some(run(&format!(
+                "if std.setMember([{}, \"x\"], {}, {}) then \"true\" else \"false\"",
+                x,
+                arr_src(&ks, ""),
+                KEYF
+            )))
+        }
+        [op @ ("min" | "max"), ks] => {
+            let ks = parse_keys(ks)?;
+            let f = if *op == "min" { "minArray" } else { "maxArray" };
+            Some(run(&format!(
+                "std.{}({}, {}, [0, \"empty\"])[1]",
+                f,
+                arr_src(&ks, ""),
+                KEYF
+            )))
+        }
+        _ => None,
+    }
 }
